@@ -1,7 +1,10 @@
 // c08: storage errors never cause wrong answers or loss of acknowledged writes.
 // Fault positions (k-th operation of each kind on each file type, once or persistently, singly or in pairs) are
 // injected into marker-carrying workloads on the checker's storage; reads are checked against a three-valued
-// batch oracle (acknowledged / errored / not issued) while running, after healing, and after close + reopen.
+// batch oracle (acknowledged / errored / not issued) while running, after healing, and after close + reopen;
+// after healing the DB must accept a synced write again, and a crash image taken then (unsynced tails lost) must
+// open and hold every write acknowledged with sync. (K): every scenario is translated into the fault model
+// Store/Faults.v (kmap.go) and the model's prediction is compared inside Coq with what the reopened DB holds.
 package main
 
 import (
@@ -64,6 +67,35 @@ type outcome struct {
 	faultHit int
 	stats    map[string]int
 	kcase    string
+	kwhy     string // why the scenario has no (K) case
+}
+
+// the commit hook is process-wide: it dispatches on the storage of the committing session
+var (
+	hookOnce sync.Once
+	hookOuts sync.Map // storage.Storage -> *hookRec
+)
+
+type hookRec struct {
+	stor  *vstor.Stor
+	mu    sync.Mutex
+	edits []editEv
+}
+
+func installHook() {
+	hookOnce.Do(func() {
+		leveldb.VerifSetCommitHook(func(e leveldb.VerifEdit) {
+			x, ok := hookOuts.Load(e.Stor)
+			if !ok {
+				return
+			}
+			h := x.(*hookRec)
+			ev := editEv{idx: h.stor.OpCount(), flush: e.HasJournal, txn: !e.HasJournal && e.HasSeq, nAdded: len(e.Added), nDelete: len(e.Deleted)}
+			h.mu.Lock()
+			h.edits = append(h.edits, ev)
+			h.mu.Unlock()
+		})
+	})
 }
 
 func call(d time.Duration, f func() error) (err error, timedOut bool) {
@@ -86,11 +118,20 @@ func call(d time.Duration, f func() error) (err error, timedOut bool) {
 
 // closeBounded closes a DB on a path where a violation (or the end of a scenario) is already decided: the
 // result of Close does not matter there and a Close that blocks must not keep the harness from reporting.
-func closeBounded(db *leveldb.DB) { call(3*time.Second, func() error { return db.Close() }) }
+func closeBounded(db *leveldb.DB) {
+	call(3*time.Second, func() error { return db.Close() })
+	leveldb.VerifForgetDB(db)
+}
 
 // checkContents reads every marker and key and compares with the in-order application of the batches whose
 // marker is present; all acknowledged batches must be present. readErrOK: read errors are tolerated (faults active).
 func checkContents(db *leveldb.DB, bs []*bstat, phase string, readErrOK bool) string {
+	return checkContentsNeed(db, bs, phase, readErrOK, false, func(s *bstat) bool { return s.ok })
+}
+
+// checkContentsNeed: need(s) says whether batch s must be present; strict: no error at all is acceptable (nothing
+// damaged the bytes of this storage: a "corrupted" answer means something durable was not durable).
+func checkContentsNeed(db *leveldb.DB, bs []*bstat, phase string, readErrOK, strict bool, need func(*bstat) bool) string {
 	got := map[string][]byte{}
 	it := db.NewIterator(nil, nil)
 	for it.Next() {
@@ -99,10 +140,10 @@ func checkContents(db *leveldb.DB, bs []*bstat, phase string, readErrOK bool) st
 	err := it.Error()
 	it.Release()
 	if err != nil {
-		if readErrOK || errors.IsCorrupted(err) {
+		if !strict && (readErrOK || errors.IsCorrupted(err)) {
 			return "" // an error instead of data is allowed; wrong data is not
 		}
-		return fmt.Sprintf("%s: iteration fails after the faults were removed: %v", phase, err)
+		return fmt.Sprintf("%s: iteration fails: %v", phase, err)
 	}
 	exp := map[string][]byte{}
 	for _, s := range bs {
@@ -113,7 +154,7 @@ func checkContents(db *leveldb.DB, bs []*bstat, phase string, readErrOK bool) st
 			continue
 		}
 		_, in := got[string(wl.Marker(s.b.ID))]
-		if s.ok && !in {
+		if need(s) && !in {
 			return fmt.Sprintf("%s: write %d was reported successful but is absent", phase, s.b.ID)
 		}
 		if in {
@@ -140,12 +181,12 @@ func checkContents(db *leveldb.DB, bs []*bstat, phase string, readErrOK bool) st
 			return fmt.Sprintf("%s: key %x of an applied batch is missing (a batch is partly applied or an acknowledged write is hidden)", phase, k)
 		}
 	}
-	return pointReads(db, exp, phase, readErrOK, 40)
+	return pointReads(db, exp, phase, readErrOK && !strict, 40, strict)
 }
 
 // pointReads: every Get must return the expected value or a genuine error — "not found" for a key that is
 // there is a wrong answer, not an error.
-func pointReads(db *leveldb.DB, exp map[string][]byte, phase string, readErrOK bool, max int) string {
+func pointReads(db *leveldb.DB, exp map[string][]byte, phase string, readErrOK bool, max int, strict bool) string {
 	n := 0
 	for k, v := range exp {
 		if n++; n > max {
@@ -156,7 +197,7 @@ func pointReads(db *leveldb.DB, exp map[string][]byte, phase string, readErrOK b
 			return fmt.Sprintf("%s: Get(%x) says not found for a key whose batch is applied (a failed read must surface as an error, not as absence)", phase, k)
 		}
 		if err != nil {
-			if readErrOK || errors.IsCorrupted(err) {
+			if !strict && (readErrOK || errors.IsCorrupted(err)) {
 				continue
 			}
 			return fmt.Sprintf("%s: Get(%x) fails: %v", phase, k, err)
@@ -186,7 +227,7 @@ func readFaultProbe(db *leveldb.DB, stor *vstor.Stor, bs []*bstat, r *vlib.RNG) 
 	}
 	for t := 0; t < 6; t++ {
 		stor.AddFault(&vstor.Fault{Kind: vstor.OpRead, Type: storage.TypeTable, K: r.Intn(8), Persistent: r.Chance(1, 3)})
-		m := pointReads(db, exp, "under a table read fault", true, 1000)
+		m := pointReads(db, exp, "under a table read fault", true, 1000, false)
 		stor.Heal()
 		if m != "" {
 			return m
@@ -195,18 +236,45 @@ func readFaultProbe(db *leveldb.DB, stor *vstor.Stor, bs []*bstat, r *vlib.RNG) 
 	return ""
 }
 
+// crashOracle: a crash right now (every unsynced tail lost) must leave an image that opens, serves no error, and
+// holds everything that was acknowledged with sync (and every committed transaction), whatever failed before;
+// batches stay atomic.
+func crashOracle(stor *vstor.Stor, o *opt.Options, bs []*bstat, phase string) (msg, hung string) {
+	img := stor.Clone(false)
+	for _, fd := range img.ListAll() {
+		data, synced, _ := img.FileBytes(fd)
+		img.SetFileBytes(fd, data[:synced])
+	}
+	var dbc *leveldb.DB
+	err, to := call(60*time.Second, func() error { var e error; dbc, e = leveldb.Open(img, o); return e })
+	if to {
+		return "", "Open of the crash image did not return"
+	}
+	if err != nil {
+		return phase + ": Open of the image fails: " + err.Error(), ""
+	}
+	m := checkContentsNeed(dbc, bs, phase, false, true, func(s *bstat) bool { return s.ok && (s.b.Sync || s.b.Txn) })
+	closeBounded(dbc)
+	return m, ""
+}
+
 func runScenario(sc *Scenario) (out outcome) {
 	out.stats = map[string]int{}
 	stor := vstor.New(true)
 	// a closed DB stays reachable for about a second (mpoolDrain): do not let it pin the op log and file bytes
 	defer stor.Discard()
-	stor.NoData = true
+	installHook()
+	hk := &hookRec{stor: stor}
+	hookOuts.Store(stor, hk)
+	defer hookOuts.Delete(stor)
 	o := sc.W.Cfg.Options()
 	db, err := leveldb.Open(stor, o)
 	if err != nil {
 		out.msg = "initial Open: " + err.Error()
 		return
 	}
+	openIdx := stor.OpCount()
+	var reopens []int
 	// whatever happens, stop injecting faults when the scenario ends: background retry loops spin while
 	// a persistent fault is active
 	defer stor.Heal()
@@ -217,24 +285,6 @@ func runScenario(sc *Scenario) (out outcome) {
 		}
 	}()
 	var faults []*vstor.Fault
-	// manHits: how often a manifest write/sync fault has fired so far (for the attribution of known finding C11-K1)
-	manHits := func() int {
-		n := 0
-		for _, f := range faults {
-			if f.Type == storage.TypeManifest && (f.Kind == vstor.OpSync || f.Kind == vstor.OpWrite) {
-				n += f.Hits
-			}
-		}
-		return n
-	}
-	k1 := false // a transaction commit (explicit, or DB.Write's own for a batch above the write buffer) failed while a manifest write/sync fault fired
-	batchBytes := func(recs []dbh.Rec) int {
-		n := 12
-		for _, r := range recs {
-			n += len(r.K) + len(r.V) + 11
-		}
-		return n
-	}
 	arm := func() {
 		for _, f := range sc.Faults {
 			vf := &vstor.Fault{Kind: vstor.OpKind(f.Kind), Type: storage.FileType(f.Type), K: f.K, Persistent: f.Persistent, PartialPermille: f.Partial}
@@ -268,6 +318,14 @@ func runScenario(sc *Scenario) (out outcome) {
 				closeBounded(db)
 				return
 			}
+			if m, hung := crashOracle(stor, o, bs, "after a crash (unsynced tails lost) right after the faults were removed"); hung != "" {
+				out.hung = hung
+				return
+			} else if m != "" {
+				out.msg = m
+				closeBounded(db)
+				return
+			}
 		}
 		switch st.Kind {
 		case "write":
@@ -275,11 +333,7 @@ func runScenario(sc *Scenario) (out outcome) {
 			bi++
 			s.issued = true
 			s.b.StartIdx = stor.OpCount()
-			mh := manHits()
 			err, to := call(T, func() error { return db.Write(wl.MkBatch(s.b.Recs), &opt.WriteOptions{Sync: st.Sync}) })
-			if err != nil && manHits() > mh && batchBytes(s.b.Recs) > sc.W.Cfg.WriteBuffer/2 {
-				k1 = true
-			}
 			if to {
 				out.hung = fmt.Sprintf("Write of batch %d did not return within %v", s.b.ID, T)
 				return
@@ -298,7 +352,6 @@ func runScenario(sc *Scenario) (out outcome) {
 			bi++
 			s.issued = true
 			s.b.StartIdx = stor.OpCount()
-			mh := manHits()
 			err, to := call(T, func() error {
 				tr, err := db.OpenTransaction()
 				if err != nil {
@@ -322,9 +375,6 @@ func runScenario(sc *Scenario) (out outcome) {
 			s.ok = err == nil
 			if err != nil {
 				out.stats["errored_txns"]++
-				if manHits() > mh {
-					k1 = true
-				}
 			}
 		case "compact":
 			_, to := call(T, func() error { return db.CompactRange(util.Range{}) })
@@ -343,6 +393,8 @@ func runScenario(sc *Scenario) (out outcome) {
 				out.hung = "Close did not return"
 				return
 			}
+			leveldb.VerifForgetDB(db)
+			reopens = append(reopens, stor.OpCount())
 			db, err = leveldb.Open(stor, o)
 			if err != nil {
 				out.msg = "reopen (no fault active) fails: " + err.Error()
@@ -362,11 +414,56 @@ func runScenario(sc *Scenario) (out outcome) {
 	for _, f := range faults {
 		out.faultHit += f.Hits
 	}
+	// after the faults are removed the DB must be usable again: a synced write must succeed — at once, or, while a
+	// background job is still backing off after its last failed retry (at most 8 s), after a few attempts. Each
+	// attempt is one more batch of the workload.
+	usable, attempts := false, 0
+	var lastErr error
+	for deadline := time.Now().Add(12 * time.Second); ; {
+		s := &bstat{b: &wl.Batch{ID: len(bs), Sync: true}, widx: -1, issued: true}
+		s.b.Recs = []dbh.Rec{{K: wl.Marker(s.b.ID), V: []byte{1}}, {K: []byte("\x01probe"), V: []byte(fmt.Sprint(attempts))}}
+		bs = append(bs, s)
+		s.b.StartIdx = stor.OpCount()
+		err, to := call(T, func() error { return db.Write(wl.MkBatch(s.b.Recs), &opt.WriteOptions{Sync: true}) })
+		if to {
+			out.hung = "a write after the faults were removed did not return"
+			return
+		}
+		s.b.AckIdx = stor.OpCount()
+		s.ok = err == nil
+		attempts++
+		if err == nil {
+			usable = true
+			break
+		}
+		lastErr = err
+		if time.Now().After(deadline) {
+			break
+		}
+		time.Sleep(300 * time.Millisecond)
+	}
+	if attempts > 1 {
+		out.stats["scenarios_usable_only_after_retries"]++
+	}
+	if !usable {
+		out.msg = fmt.Sprintf("the DB stays unusable after the faults were removed: %d synced writes over 12 s all failed, the last with: %v", attempts, lastErr)
+		closeBounded(db)
+		return
+	}
 	if m := checkContents(db, bs, "at the end (faults removed)", false); m != "" {
 		out.msg = m
 		closeBounded(db)
 		return
 	}
+	if m, hung := crashOracle(stor, o, bs, "after a crash (unsynced tails lost) that follows the faults"); hung != "" {
+		out.hung = hung
+		return
+	} else if m != "" {
+		out.msg = m
+		closeBounded(db)
+		return
+	}
+	out.stats["crash_images_after_faults"]++
 	if sc.ReadProbe {
 		if m := readFaultProbe(db, stor, bs, vlib.NewRNG(sc.W.Seed)); m != "" {
 			out.msg = m
@@ -379,6 +476,7 @@ func runScenario(sc *Scenario) (out outcome) {
 		out.hung = "final Close did not return"
 		return
 	}
+	leveldb.VerifForgetDB(db)
 	opsBeforeReopen := stor.Ops()
 	var db2 *leveldb.DB
 	err, to = call(60*time.Second, func() error { var e error; db2, e = leveldb.Open(stor, o); return e })
@@ -388,11 +486,6 @@ func runScenario(sc *Scenario) (out outcome) {
 	}
 	if err != nil {
 		out.msg = "reopen after the faults were removed fails: " + err.Error()
-		if k1 && strings.Contains(err.Error(), "file missing") {
-			// recorded, unrepaired defect C11-K1 (known_findings.txt): the failed commit's record stayed in the manifest,
-			// its tables were removed by the discard, the next Open names missing files
-			out.known = "C11-K1"
-		}
 		return
 	}
 	defer closeBounded(db2)
@@ -400,55 +493,30 @@ func runScenario(sc *Scenario) (out outcome) {
 		out.msg = m
 		return
 	}
-	// (K) journal-sync-fault scenarios: the persistence model follows the observed writes (an errored write whose
-	// record reached the journal is an unsynced, unacknowledged record that consumed its sequence numbers)
-	if len(sc.Faults) == 1 && sc.Faults[0].Kind == int(vstor.OpSync) && sc.Faults[0].Type == int(storage.TypeJournal) && !sc.Faults[0].Persistent {
-		out.kcase = kCase(sc, opsBeforeReopen, bs, db2)
-	}
-	return
-}
-
-// kCase renders the scenario as a Store/Crash.v history (writes only: no flush happened if the op log shows no
-// table file) and the batches kept after the clean reopen.
-func kCase(sc *Scenario, ops []vstor.Op, bs []*bstat, db2 *leveldb.DB) string {
-	for _, o := range ops {
-		if o.Fd.Type == storage.TypeTable {
-			return "" // keep to journal-only histories: rotation/flush ordering is C04's correspondence
-		}
-	}
-	var mops, kept []string
-	idx := 0
+	// (K) the fault model follows what was observed and must predict what the reopened DB holds
+	kept := map[int]bool{}
 	for _, s := range bs {
-		if !s.issued {
-			continue
-		}
-		if s.b.Txn {
-			return ""
-		}
-		wrote := false
-		for i := s.b.StartIdx; i < s.b.AckIdx && i < len(ops); i++ {
-			if ops[i].Fd.Type == storage.TypeJournal && ops[i].Kind == vstor.OpWrite && ops[i].N > 0 && !ops[i].Fail {
-				wrote = true
+		if s.issued {
+			if _, err := db2.Get(wl.Marker(s.b.ID), nil); err == nil {
+				kept[s.b.ID] = true
 			}
 		}
-		if !wrote {
-			return ""
-		}
-		mops = append(mops, fmt.Sprintf("PWrite %d %v", len(s.b.Recs), s.ok && s.b.Sync))
-		if _, err := db2.Get(wl.Marker(s.b.ID), nil); err == nil {
-			kept = append(kept, fmt.Sprint(idx))
-		}
-		idx++
 	}
-	if len(mops) == 0 {
-		return ""
+	hk.mu.Lock()
+	var edits []editEv
+	for _, e := range hk.edits {
+		if e.idx <= len(opsBeforeReopen) { // the commits of the final Open are not part of the history
+			edits = append(edits, e)
+		}
 	}
-	return fmt.Sprintf("KCrash [%s] true [%s]", strings.Join(mops, "; "), strings.Join(kept, "; "))
+	hk.mu.Unlock()
+	out.kcase, out.kwhy = kCase(sc, opsBeforeReopen, bs, edits, reopens, openIdx, kept, faults)
+	return
 }
 
 func main() {
 	a := vlib.ParseArgs()
-	res := vlib.NewResult("C08", a.Out, "marker-carrying workloads (writes, batches, oversized batches, transactions, CompactRange, reopen; tiny buffers) x fault positions: the k-th {write, sync, create, open, read, remove, closew} on {journal, manifest, table} files, once or persistently, partial writes, singly (quick) or in pairs (thorough), armed at a random step and healed at a later one; checked while faults are active (errors allowed, wrong data not), after healing, and after close + reopen against the three-valued batch oracle read off the unique markers; non-trivial = a fault actually fired on a journal/manifest/table write, sync, create or remove (not a read)")
+	res := vlib.NewResult("C08", a.Out, "marker-carrying workloads (writes, batches, oversized batches, transactions, CompactRange, reopen; tiny buffers) x fault positions: the k-th {write, sync, create, open, read, remove, closew} on {journal, manifest, table} files, once or persistently, partial writes, singly (quick) or in pairs (thorough), armed at a random step and healed at a later one; checked while faults are active (errors allowed, wrong data not), after healing, and after close + reopen against the three-valued batch oracle read off the unique markers; after healing a synced write must succeed (retried for 12 s) and a crash image (unsynced tails lost) taken after healing and at the end must open, serve no error and hold every sync-acknowledged write; one scenario in sixteen is directed at a failing transaction commit; every scenario is also translated into the Coq fault model (K); non-trivial = a fault actually fired on a journal/manifest/table write, sync, create or remove (not a read)")
 	skipWrite := false
 	defer func() {
 		if !skipWrite {
@@ -488,7 +556,7 @@ func main() {
 	guard := vlib.NewGuard(a.Out)
 	nscen := 800
 	if a.Thorough() {
-		nscen = 30000
+		nscen = 15000
 	}
 	if strings.Contains(a.Extra, "search") {
 		nscen = 4000
@@ -499,7 +567,12 @@ func main() {
 	jobs := make(chan *Scenario, 64)
 	var wg sync.WaitGroup
 	var kmu sync.Mutex
-	var kcases []string
+	type kc struct {
+		idx  int
+		text string
+		hit  bool
+	}
+	var kcases []kc
 	knownSeen := map[string]bool{}
 	for w := 0; w < 16; w++ {
 		wg.Add(1)
@@ -547,12 +620,21 @@ func main() {
 					res.Count("scenarios_skipped_hang(C09)", 1)
 					continue
 				}
-				if out.kcase != "" {
-					kmu.Lock()
-					if len(kcases) < 400 {
-						kcases = append(kcases, out.kcase)
+				if out.msg == "" {
+					if len(out.kcase) > 40000 {
+						out.kcase, out.kwhy = "", "case_too_long"
 					}
-					kmu.Unlock()
+					if out.kcase != "" {
+						kmu.Lock()
+						kcases = append(kcases, kc{sc.Idx, out.kcase, out.faultHit > 0})
+						kmu.Unlock()
+						res.Count("k_mapped", 1)
+						if out.faultHit > 0 {
+							res.Count("k_mapped_with_fault_hit", 1)
+						}
+					} else {
+						res.Count("k_unmapped_"+out.kwhy, 1)
+					}
 				}
 				if out.msg != "" && out.known != "" {
 					res.Count("known_finding_"+out.known, 1)
@@ -645,6 +727,39 @@ func main() {
 				res.Count("directed_manifest_fault_at_txn", 1)
 			}
 		}
+		// one scenario in sixteen is directed at a failing commit: a few writes, then a transaction (or a batch above
+		// the write buffer) whose manifest write or sync fails — persistently (every retry and the discard's own fresh
+		// manifest fail too) or once —, the fault removed right after it, then a few acknowledged writes and the end
+		if i%16 == 5 && !journalOnly {
+			var small, victims []wl.Step
+			for _, st := range w.Steps {
+				switch {
+				case st.Kind == "txn", st.Kind == "write" && len(st.Recs) > w.Cfg.WriteBuffer/300 && !w.Cfg.NoLargeBatchTxn:
+					victims = append(victims, st)
+				case st.Kind == "write" && len(st.Recs) < 6:
+					st.Sync = true
+					small = append(small, st)
+				}
+			}
+			if len(victims) > 0 && len(small) >= 4 {
+				pre, post := r.Intn(3), 1+r.Intn(3)
+				var steps []wl.Step
+				steps = append(steps, small[:pre]...)
+				steps = append(steps, wl.Step{Kind: "idle"})
+				steps = append(steps, victims[r.Intn(len(victims))])
+				steps = append(steps, small[pre:pre+post]...)
+				w.Steps = steps
+				sc.ReadProbe = false
+				f := FaultSpec{Kind: int([]vstor.OpKind{vstor.OpSync, vstor.OpSync, vstor.OpWrite}[r.Intn(3)]), Type: int(storage.TypeManifest), K: 0, Persistent: r.Chance(2, 3)}
+				if vstor.OpKind(f.Kind) == vstor.OpWrite {
+					f.Partial = []int{0, 1000, r.Range(0, 1000)}[r.Intn(3)]
+				}
+				sc.Faults = []FaultSpec{f}
+				sc.ArmStep = pre + 1
+				sc.HealStep = pre + 2
+				res.Count("directed_failing_commit", 1)
+			}
+		}
 		if i < 2 {
 			res.Sample(map[string]interface{}{"faults": sc.Faults, "arm_step": sc.ArmStep, "heal_step": sc.HealStep, "steps": len(w.Steps), "cfg": w.Cfg.String()})
 		}
@@ -655,5 +770,21 @@ func main() {
 	}
 	close(jobs)
 	wg.Wait()
-	res.WriteCases("From GL Require Import Store.Crash Corr.C08Run.", "c04case", "mismatches", kcases, 16)
+	// deterministic order; scenarios in which a fault fired first; bounded text per file
+	sort.Slice(kcases, func(i, j int) bool {
+		if kcases[i].hit != kcases[j].hit {
+			return kcases[i].hit
+		}
+		return kcases[i].idx < kcases[j].idx
+	})
+	var texts []string
+	total := 0
+	for _, k := range kcases {
+		if total+len(k.text) > 16*250000 {
+			break
+		}
+		total += len(k.text)
+		texts = append(texts, k.text)
+	}
+	res.WriteCases("From GL Require Import Store.Crash Store.Faults Corr.C08Run.", "c08case", "mismatches", texts, 16)
 }
